@@ -9,30 +9,39 @@ Pts == {R(0 - 2), R(0 - 1), <<0 - 1, 2>>, R(0), R(1), R(2)}
 PointSets == {S \in SUBSET Pts : Cardinality(S) >= 1 /\ Cardinality(S) <= PMax}
 SortedSeq(S) == LET RECURSIVE F(_) F(T) == IF T = {} THEN <<>> ELSE
                      LET m == CHOOSE a \in T : \A b \in T : RLe(a, b) IN <<m>> \o F(T \ {m}) IN F(S)
-Init == \/ \E p \in Params, S \in PointSets : c = [fam |-> "gram", p |-> p, X |-> SortedSeq(S)]
+\* mixture parameter exactly 1/2 on Pythagorean distances (in units of the length scale): 13 second-argument points
+PythY(l) == [j \in 1..13 |-> RMul(l, <<<<0, 1>>, <<3, 4>>, <<0 - 3, 4>>, <<4, 3>>, <<0 - 4, 3>>, <<5, 12>>, <<0 - 5, 12>>, <<12, 5>>, <<0 - 12, 5>>,
+                                       <<8, 15>>, <<0 - 8, 15>>, <<15, 8>>, <<0 - 15, 8>>>>[j])]
+HalfCases == {[fam |-> "gram", half |-> TRUE, p |-> [v |-> v, alpha |-> 0, l |-> l], X |-> X] :
+                 v \in {R(1), <<1, 4>>, R(3)}, l \in {R(1), <<1, 2>>, R(2)}, X \in {<<R(0)>>, <<R(0), R(0)>>}}
+Init == \/ c \in HalfCases
+        \/ \E p \in Params, S \in PointSets : c = [fam |-> "gram", p |-> p, X |-> SortedSeq(S)]
         \/ \E p \in Params \cup {[v |-> v, alpha |-> a, l |-> l] : v \in {<<1, 64>>, R(64)}, a \in {1, 2, 64}, l \in {<<1, 64>>, R(64)}}
                         \cup {[v |-> R(1), alpha |-> 64, l |-> R(1)], [v |-> R(3), alpha |-> 16, l |-> <<1, 2>>]} :
               c = [fam |-> "scalar", p |-> p, X |-> <<>>]      \* incl. the corners of the parameter box (1e-2, 1e2)
 Next == UNCHANGED c
 Spec == Init /\ [][Next]_c
-K(x, y) == RQ(c.p.v, c.p.alpha, c.p.l, x, y)
+Half == "half" \in DOMAIN c
+K(x, y) == IF Half THEN RQHalf(c.p.v, c.p.l, x, y) ELSE RQ(c.p.v, c.p.alpha, c.p.l, x, y)
 IsG == c.fam = "gram"
 G == TLCEval(Gram(K, c.X, c.X))
 Inv_Symmetric == IsG => \A i, j \in 1..Len(c.X) : G[i][j] = G[j][i]
 Inv_Diagonal  == IsG => \A i \in 1..Len(c.X) : G[i][i] = c.p.v
 Inv_Positive  == IsG => \A i, j \in 1..Len(c.X) : RLt(RZ, G[i][j]) /\ RLe(G[i][j], c.p.v)
 \* non-increasing in the distance: X is sorted, so along a row the values fall off on both sides of the diagonal
-Inv_Monotone  == IsG => \A i, j, k \in 1..Len(c.X) : (i <= j /\ j <= k) => (RLe(G[i][k], G[i][j]) /\ RLe(G[k][i], G[k][j]))
+Inv_Monotone  == (IsG /\ ~Half) => \A i, j, k \in 1..Len(c.X) : (i <= j /\ j <= k) => (RLe(G[i][k], G[i][j]) /\ RLe(G[k][i], G[k][j]))
 \* exact minors stay within 32-bit integers for unit variance and length scale on integer points (sets of up to 3
 \* points for alpha = 2) and for pairs of points in general
 IntegerPoints == \A i \in 1..Len(c.X) : c.X[i][2] = 1
-Inv_PSD       == (IsG /\ (Len(c.X) <= 2 \/ (c.p.v = R(1) /\ c.p.l = R(1) /\ IntegerPoints /\ (c.p.alpha = 1 \/ Len(c.X) <= 3)))) => PSD(G)
+Inv_PSD       == (IsG /\ ~Half /\ (Len(c.X) <= 2 \/ (c.p.v = R(1) /\ c.p.l = R(1) /\ IntegerPoints /\ (c.p.alpha = 1 \/ Len(c.X) <= 3)))) => PSD(G)
 Flat(M) == LET RECURSIVE Fl(_) Fl(k) == IF k = 0 THEN <<>> ELSE Fl(k - 1) \o M[k] IN Fl(Len(M))
 \* second point set for rectangular Gram matrices: the first |X| - 1 points shifted by 1/2, plus 5
-Y == [j \in 1..(Len(c.X) + 1) |-> IF j <= Len(c.X) THEN RAdd(c.X[j], <<1, 2>>) ELSE R(5)]
-Emit == IF IsG THEN PrintT(<<"CASE", ToJson([fam |-> "gram", v |-> RJ(c.p.v), alpha |-> c.p.alpha, l |-> RJ(c.p.l),
+Y == IF Half THEN PythY(c.p.l) ELSE [j \in 1..(Len(c.X) + 1) |-> IF j <= Len(c.X) THEN RAdd(c.X[j], <<1, 2>>) ELSE R(5)]
+\* the premise of the exact square root
+Inv_HalfExact == Half => \A i \in 1..Len(c.X), j \in 1..Len(Y) : IsSquareQ(HalfBase(c.p.l, c.X[i], Y[j]))
+Emit == IF IsG THEN PrintT(<<"CASE", ToJson([fam |-> "gram", v |-> RJ(c.p.v), alpha |-> (IF Half THEN RJ(<<1, 2>>) ELSE RJ(R(c.p.alpha))), l |-> RJ(c.p.l),
                                X |-> RSeqJ(c.X), Y |-> RSeqJ(Y),
                                rq |-> RSeqJ(Flat(Gram(K, c.X, Y))),
                                rbf_t |-> RSeqJ(Flat(Gram(LAMBDA x, y : RBFExponent(c.p.l, x, y), c.X, Y)))])>>)
-        ELSE PrintT(<<"CASE", ToJson([fam |-> "scalar", v |-> RJ(c.p.v), alpha |-> c.p.alpha, l |-> RJ(c.p.l)])>>)
+        ELSE PrintT(<<"CASE", ToJson([fam |-> "scalar", v |-> RJ(c.p.v), alpha |-> RJ(R(c.p.alpha)), l |-> RJ(c.p.l)])>>)
 =============================================================================
